@@ -46,9 +46,11 @@ type gObs struct {
 	Diff      string `json:"diff"`
 }
 
-func (Genuine) Name() string                    { return "Genuine" }
-func (Genuine) MC(tier string) (string, string) { return "MC_Genuine.tla", "MC_Genuine_" + tier + ".cfg" }
-func (Genuine) Trace() (string, string)         { return "Trace_Genuine.tla", "Trace_Genuine.cfg" }
+func (Genuine) Name() string { return "Genuine" }
+func (Genuine) MC(tier string) (string, string) {
+	return "MC_Genuine.tla", "MC_Genuine_" + tier + ".cfg"
+}
+func (Genuine) Trace() (string, string) { return "Trace_Genuine.tla", "Trace_Genuine.cfg" }
 func (Genuine) Cap(tier string) int {
 	if tier == "quick" {
 		return 3000
